@@ -58,7 +58,7 @@ class _Guarded:
 
     def __init__(self, mod, pid):
         self._mod = mod
-        self.execute = core.guarded(pid, mod.execute)
+        self.execute = core.guarded(pid, mod.execute, getattr(mod, "RUN_WALL_S", None))
 
     def __getattr__(self, name):
         return getattr(self._mod, name)
@@ -153,6 +153,8 @@ def _work(args):
         out["sim_time_us"] += res.sim_time_us
         for v in res.violations:
             out["violations"].append((kind, index, list(v.sig), v.msg, v.plan or plan))
+        if any("wall_clock" in v.sig for v in res.violations):
+            break       # a run that had to be stopped by the wall-clock alarm: do not spend the chunk's budget on more of them
         if len(out["samples"]) < 2 and (res.faults or not out["samples"]):
             out["samples"].append(plan)
     faulthandler.cancel_dump_traceback_later()
@@ -360,7 +362,7 @@ def run_check(pid: str, tier: str, verif_seed: int, runs: int | None, workers: i
             if code != 1:
                 continue       # only failed in this process because of leaked state: try another occurrence / the prelude
             small, execs = plan, 0
-            if reported < 6 and not sweep:
+            if reported < 6 and not sweep and "wall_clock" not in sig:
                 small, execs = core.minimise(plan, sig, prop.execute, prop.candidates)
             path = unmin
             if small is not plan:
